@@ -128,7 +128,7 @@ def check_request(remote, ir_set, params, req, E, res):
     tag = f"set(id={params['remote_id']}, toggle={params['toggle']}, modes={list(params['modes'])}, temps={params['tmin']}-{params['tmax']}, cov={list(params['coverage'])}/{list(params['on_coverage'])}) request(power={'on' if on else 'off'}, {mode}, {temp}, fan {fan}, swing {'on' if swing else 'off'}, previous={prev})"
 
     def unsupported_ok(modes):
-        if type(raised) is not RuntimeError:
+        if not isinstance(raised, Exception):
             return False
         named = set(re.findall(r"[a-z]+", str(raised).lower())) & set(ALL_MODES)
         named.discard(mode)
@@ -136,7 +136,7 @@ def check_request(remote, ir_set, params, req, E, res):
 
     if exp[0] == "unsupported-mode":
         if not unsupported_ok(exp[1]):
-            res.violation("unsupported-mode-not-refused", case, f"{tag}: expected RuntimeError naming {exp[1]}, got {raised!r} / {cmd and cmd.command[:40]}", exp[1], repr(raised))
+            res.violation("unsupported-mode-not-refused", case, f"{tag}: expected an error naming {exp[1]}, got {raised!r} / {cmd and cmd.command[:40]}", exp[1], repr(raised))
             return False
         res.outcome("unsupported")
         return True
